@@ -12,14 +12,15 @@ func getDialAddr(urlAddr, dialAddr string, defaultPort string) string {
 		}
 		host, port := trySplitHostPort(dialAddr)
 		if len(port) == 0 { // add default port
-			return net.JoinHostPort(host, defaultPort)
+			// host may be a bracketed ipv6 literal ("[::1]"), JoinHostPort adds the brackets itself
+			return net.JoinHostPort(tryTrimIpv6Brackets(host), defaultPort)
 		}
 		return dialAddr
 	}
 
 	host, port := trySplitHostPort(urlAddr)
 	if len(port) == 0 {
-		return net.JoinHostPort(host, defaultPort)
+		return net.JoinHostPort(tryTrimIpv6Brackets(host), defaultPort)
 	}
 	return urlAddr
 }
